@@ -2966,6 +2966,247 @@ KERNELS += [
 ]
 
 
+# ---- additions: BTreeMap look-ups, tuple types / patterns, assignment from inside `if let` --------------------------
+# (the incentive's flow helpers `get_flow_asset_amount_at_epoch`, `get_flow_end_epoch`, `get_flow_current_end_epoch`)
+#
+# Map semantics (trusted base, see STRUCTURAL below): a value of type `BTreeMap<K, V>` with K a machine integer is
+# the association list `List (Nat × V)` of its entries.  NOTHING is assumed about that list (neither sorted nor
+# duplicate-free); the two primitives of `lean/WW/Cw/BTree.lean` are total on every list.  Translator types:
+#   ('tuple', T1, .., Tn)  a Rust tuple type `(T1, .., Tn)`, n >= 2          -> Lean `T1 × .. × Tn`
+#   ('btree', K, V)        `BTreeMap<K, V>`                                    -> Lean `List (Nat × V)`
+_U64_HIST = ("btree", "u64", ("tuple", "Uint128", "u64"))
+_U64_HIST_ENTRY = ("opt", ("tuple", "u64", ("tuple", "Uint128", "u64")))
+RANGE_TO_INCL_NEXT_BACK = "range(..=b).next_back"
+SEM += [
+    R("m", "last_key_value", (_U64_HIST,), _U64_HIST_ENTRY, "btreeLastKeyValue {0}", "pure",
+      "Rust std alloc::collections::btree_map BTreeMap::last_key_value: `Returns the last key-value pair in the map. The key in this pair is the maximum key in the map.`; None for the empty map (the references `(&K, &V)` are the values)"),
+    R("m", RANGE_TO_INCL_NEXT_BACK, (_U64_HIST, "u64"), _U64_HIST_ENTRY, "btreeRangeToInclNextBack {0} {1}", "pure",
+      "Rust std BTreeMap::range(..=b): double-ended iterator over the entries with key <= b (RangeToInclusive) in ascending key order; core::iter::DoubleEndedIterator::next_back on the fresh iterator: its last element = the entry with the greatest key <= b, None when there is none"),
+]
+STRUCTURAL += [
+    ("BTreeMap<K, V> (K a machine integer), as a field / parameter type",
+     "the association list `List (Nat × V)` of the map's entries, in no particular order and with no assumption on it; only the two look-up rows `last_key_value` and `range(..=b).next_back()` of SEM apply (`range(..b)`, `range(a..)`, `first_key_value`, `get`, `insert`, iteration … stay UNTRANSLATABLE)"),
+    ("(T1, .., Tn) as a type, n >= 2", "Lean product `T1 × .. × Tn`"),
+    ("if let Some((p1, .., pn)) = e  with pi one of `_`, a name, `&`pattern, a nested tuple pattern",
+     "Lean `match e with | some (p1, .., pn) => … | _ => …`; `&` in a pattern is dropped (values are immutable numbers)"),
+    ("if let PAT = e { x = v; }   (a statement, no `else`, the body is exactly one assignment to a `let mut` local x of the enclosing linear region, v without effects)",
+     "`let x := match e with | PAT => v | _ => x`: e is evaluated first (its effects in place), x keeps its value when the pattern does not match"),
+]
+PRIM_NAMES |= {"btreeLastKeyValue", "btreeRangeToInclNextBack"}
+
+# -- parser: tuple types `(A, B)`, tuple patterns `(p, q)`, the prefix ranges `..=e` / `..e`
+_parser_ty_base = Parser.ty
+_parser_pattern_base = Parser.pattern
+_parser_expr_base = Parser.expr
+
+
+def _parser_ty_with_tuples(self):
+    if self.at("(") and not self.at(")", 1):
+        ln = self.peek().line
+        self.p += 1
+        elems = [self.ty()]
+        while self.eat(","):
+            if self.at(")"):
+                break
+            elems.append(self.ty())
+        self.expect(")")
+        if len(elems) < 2:
+            raise U(ln, "parenthesised type / one-element tuple type")
+        return N("ttuple", ln, elems=elems)
+    return _parser_ty_base(self)
+
+
+def _parser_pattern_with_tuples(self):
+    if self.at("("):
+        ln = self.peek().line
+        self.p += 1
+        subs = []
+        while not self.at(")"):
+            subs.append(self.pattern())
+            if not self.eat(","):
+                break
+        self.expect(")")
+        if len(subs) < 2:
+            raise U(ln, "unit / parenthesised / one-element tuple pattern")
+        return N("ptup", ln, subs=subs)
+    return _parser_pattern_base(self)
+
+
+def _parser_expr_with_prefix_range(self, minp, nostruct):
+    if minp == 0 and (self.at("..=") or self.at("..")):
+        t = self.peek()
+        self.p += 1
+        if self.at(")") or self.at("{") or self.at("]") or self.at(";") or self.at(","):
+            raise U(t.line, "full range `..`")
+        hi = self.expr(1, nostruct)
+        return N("range", t.line, lo=None, hi=hi, incl=(t.s == "..="))
+    return _parser_expr_base(self, minp, nostruct)
+
+
+Parser.ty = _parser_ty_with_tuples
+Parser.pattern = _parser_pattern_with_tuples
+Parser.expr = _parser_expr_with_prefix_range
+
+# -- types
+_resolve_type_base2 = resolve_type
+_lean_type_base2 = lean_type
+_type_matches_base = type_matches
+_STRUCTURED_KINDS = ("tuple", "btree")
+
+
+def resolve_type(ctx, t, names, self_ty, ret=False):   # noqa: F811 (wrapper; the recursive calls reach it)
+    if t["k"] == "ttuple":
+        return ("tuple",) + tuple(resolve_type(ctx, x, names, self_ty) for x in t["elems"])
+    if t["k"] == "tpath" and t["segs"][-1] == "BTreeMap":
+        if len(t["args"]) != 2:
+            raise U(t["line"], "BTreeMap without two type arguments")
+        kt = resolve_type(ctx, t["args"][0], names, self_ty)
+        if kt not in INTS:
+            raise U(t["line"], f"BTreeMap with key type {show_type(kt)} (only machine integers: the key order is the order of Nat)")
+        return ("btree", kt, resolve_type(ctx, t["args"][1], names, self_ty))
+    return _resolve_type_base2(ctx, t, names, self_ty, ret)
+
+
+def lean_type(ctx, t):   # noqa: F811
+    if isinstance(t, tuple) and t and t[0] == "tuple":
+        return " × ".join(atom(lean_type(ctx, x)) for x in t[1:])
+    if isinstance(t, tuple) and t and t[0] == "btree":
+        return f"List (Nat × {atom(lean_type(ctx, t[2]))})"
+    return _lean_type_base2(ctx, t)
+
+
+def type_matches(spec, t, first=None):   # noqa: F811
+    if isinstance(spec, tuple) and spec and spec[0] in _STRUCTURED_KINDS:
+        return spec == t
+    return _type_matches_base(spec, t, first)
+
+
+# -- patterns: `Some((p1, .., pn))` on an Option of a tuple
+_tr_pattern_base = Tr.pattern
+
+
+def _tuple_pattern(p, ty, line):
+    """pattern p against a value of type ty inside a tuple pattern -> (lean pattern, {rust var: type})"""
+    if p["k"] == "pwild":
+        return "_", {}
+    if p["k"] == "pbind" and not p["mut"]:
+        return lean_ident(p["name"]), {p["name"]: ty}
+    if p["k"] == "ptup":
+        if not (isinstance(ty, tuple) and ty and ty[0] == "tuple"):
+            raise U(line, f"tuple pattern on a value of type {show_type(ty)}")
+        if len(p["subs"]) != len(ty) - 1:
+            raise U(line, "tuple pattern and tuple type have different lengths")
+        parts, binds = [], {}
+        for sp, st in zip(p["subs"], ty[1:]):
+            lp, b = _tuple_pattern(sp, st, line)
+            for name in b:
+                if name in binds:
+                    raise U(line, f"`{name}` is bound twice in a pattern")
+            binds.update(b)
+            parts.append(lp)
+        return "(" + ", ".join(parts) + ")", binds
+    raise U(line, "pattern inside a tuple pattern is not `_`, a name or a tuple pattern")
+
+
+def _tr_pattern_with_tuples(self, p, st, line):
+    if isinstance(st, tuple) and st[0] == "opt" and p["k"] == "ptuple" and p["segs"] == ["Some"] \
+            and len(p["subs"]) == 1 and p["subs"][0]["k"] == "ptup":
+        lp, binds = _tuple_pattern(p["subs"][0], st[1], line)
+        return f"some {lp}", binds
+    return _tr_pattern_base(self, p, st, line)
+
+
+Tr.pattern = _tr_pattern_with_tuples
+
+# -- statements: `if let PAT = e { x = v; }`
+_tr_stmt_base = Tr.stmt
+
+
+def _tr_stmt_iflet_assign(self, st, env):
+    if st["k"] == "sexpr" and st["e"]["k"] == "iflet" and st["e"]["els"] is None:
+        ife = st["e"]
+        then = ife["then"]
+        if then["k"] == "block" and then["tail"] is None and len(then["stmts"]) == 1 \
+                and then["stmts"][0]["k"] == "sexpr" and then["stmts"][0]["e"]["k"] == "assign":
+            asg = then["stmts"][0]["e"]
+            lhs = asg["lhs"]
+            if asg["op"] == "=" and lhs["k"] == "path" and len(lhs["segs"]) == 1 \
+                    and lhs["segs"][0] in self.assignable and lhs["segs"][0] in self.mutable \
+                    and lhs["segs"][0] in env and lhs["segs"][0] not in self.uninit:
+                name, ln = lhs["segs"][0], ife["line"]
+                t = env[name]
+                sa, sty = self.tr(ife["e"], env, None)
+                if isinstance(sty, tuple) and sty[0] == "res":
+                    raise U(ln, "`if let` on a Result / checked-Option computation")
+                lp, binds = self.pattern(ife["pat"], sty, ln)
+                if name in binds:
+                    raise U(ln, f"the pattern binds `{name}`, the variable that the body assigns")
+                env2 = dict(env)
+                env2.update(binds)
+                saved, self.out = self.out, []
+                saved_assignable, self.assignable = self.assignable, set()
+                try:
+                    a, at = self.tr(asg["rhs"], env2, t)
+                    eff = self.out
+                finally:
+                    self.out, self.assignable = saved, saved_assignable
+                if eff:
+                    raise U(asg["line"], "the value assigned inside `if let` has effects")
+                if at != t:
+                    raise U(asg["line"], f"assigned value has type {show_type(at)}, the variable has type {show_type(t)}")
+                lname = lean_ident(name)
+                self.emit_lines(wrap(f"let {lname} := (", [f"match {sa} with", f"| {lp} => {a}", f"| _ => {lname}"], ")"))
+                return
+    return _tr_stmt_base(self, st, env)
+
+
+Tr.stmt = _tr_stmt_iflet_assign
+
+# -- method calls: `m.range(..=b).next_back()` (the other map method, `last_key_value`, is an ordinary SEM row)
+_tr_mcall_base2 = Tr.tr_mcall
+
+
+def _tr_mcall_btree(self, e, env, expected, hint):
+    if e["name"] == "next_back" and not e["args"] and e["turbofish"] is None:
+        r0 = e["recv"]
+        while r0["k"] == "paren":
+            r0 = r0["e"]
+        if r0["k"] == "mcall" and r0["name"] == "range" and len(r0["args"]) == 1 and r0["turbofish"] is None:
+            rg = r0["args"][0]
+            while rg["k"] == "paren":
+                rg = rg["e"]
+            ma, mt = self.tr(r0["recv"], env, None)
+            if not (isinstance(mt, tuple) and mt[0] == "btree"):
+                raise U(e["line"], f"`.range(..).next_back()` on {show_type(mt)}")
+            if rg["k"] != "range" or rg["lo"] is not None or rg["hi"] is None or not rg["incl"]:
+                raise U(e["line"], "no semantic-table row for `.range(R).next_back()` on a BTreeMap with R other than `..=b`")
+            ba, bt = self.tr(rg["hi"], env, mt[1])
+            row = self.find("m", RANGE_TO_INCL_NEXT_BACK, (mt, bt), e["line"], "`.range(..=b).next_back()`")
+            return self.apply_row(row, [ma, ba], hint), self.res_type(row, (mt, bt))
+    return _tr_mcall_base2(self, e, env, expected, hint)
+
+
+Tr.tr_mcall = _tr_mcall_btree
+
+# -- kernels
+INC_HELPERS = PN + "incentive/src/helpers.rs"
+INCENTIVE_RS = STD + "pool_network/incentive.rs"
+TYPES["Flow"] = dict(rust="Flow", file=INCENTIVE_RS, lean="Flow", names={"Asset": "Asset"})
+KERNELS += [
+    dict(lean="get_flow_asset_amount_at_epoch", file=INC_HELPERS, fn="get_flow_asset_amount_at_epoch", types={"Flow": "Flow"},
+         props=["C12", "C13"], model="WW.Inc.Flow.amountAt",
+         theorem="WW.KernelsFlowHist.gen_get_flow_asset_amount_at_epoch_eq_model", module="WW.Props.Kernels.FlowHist"),
+    dict(lean="get_flow_end_epoch", file=INC_HELPERS, fn="get_flow_end_epoch", types={"Flow": "Flow"},
+         props=["C12", "C13"], model="WW.Inc.Flow.expanded (second component; over WW.Inc.Flow.lastHist)",
+         theorem="WW.KernelsFlowHist.gen_get_flow_end_epoch_eq_model", module="WW.Props.Kernels.FlowHist"),
+    dict(lean="get_flow_current_end_epoch", file=INC_HELPERS, fn="get_flow_current_end_epoch", types={"Flow": "Flow"},
+         props=["C12", "C13"], model="WW.Inc.Flow.endAt",
+         theorem="WW.KernelsFlowHist.gen_get_flow_current_end_epoch_eq_model", module="WW.Props.Kernels.FlowHist"),
+]
+# the generated file imports the map primitives next to the number primitives
+GEN_IMPORTS = ["import WW.Cw.Arith", "import WW.Cw.BTree"]
+
+
 def sha(text):
     return hashlib.sha256(text.encode()).hexdigest()[:16]
 
@@ -3053,7 +3294,7 @@ def main():
     text = ["/- GENERATED by tools/rs2lean.py from the Rust sources on every check run. Do not edit.",
             "   Each definition is the translation of one pure numeric kernel into the `WW.Res` monad; the theorems",
             "   `gen_*_eq_model` of `WW/Props/Kernels/*.lean` prove it equal to the hand-written model function. -/",
-            "import WW.Cw.Arith", "set_option linter.unusedVariables false", "namespace WW.Gen.K", "open WW", ""]
+            *GEN_IMPORTS, "set_option linter.unusedVariables false", "namespace WW.Gen.K", "open WW", ""]
     for tl in types_out:
         text += tl + [""]
     for d in defs:
